@@ -54,8 +54,19 @@ namespace {
           : v(x)
         {
         }
-        MoveOnly(MoveOnly&&) = default;
-        MoveOnly& operator=(MoveOnly&&) = default;
+        // an owning type: the moved-from object is visibly empty (a value forwarded after it was moved away
+        // arrives as -777, like a null unique_ptr)
+        MoveOnly(MoveOnly&& o) noexcept
+          : v(o.v)
+        {
+            o.v = -777;
+        }
+        MoveOnly& operator=(MoveOnly&& o) noexcept
+        {
+            v = o.v;
+            o.v = -777;
+            return *this;
+        }
         MoveOnly(MoveOnly const&) = delete;
     };
 
